@@ -1,16 +1,22 @@
-(* C06 proofs over model/Transform.v *)
-From Coq Require Import List ZArith Bool Lia.
-From LJT Require Import model.Transform.
+(* C06 proofs, part 1: coefficients, in-block write lists, the dihedral group
+   acting on blocks (model/Transform.v against model/TransformSpec.v). *)
+From Coq Require Import List ZArith Bool Lia PeanoNat.
+From LJT Require Import model.Transform model.TransformSpec.
 Import ListNotations.
 Local Open Scope Z_scope.
 
+(* ------------------------------------------------------------ coefficients *)
 Definition int16 (x : Z) : Prop := -32768 <= x <= 32767.
+Definition wf_blk (b : blk) : Prop := length b = 64%nat /\ Forall int16 b.
 
 Lemma wrap16s_range x : int16 (wrap16s x).
 Proof. unfold int16, wrap16s. pose proof (Z.mod_pos_bound (x + 32768) 65536). lia. Qed.
 
 Lemma wrap16s_id x : int16 x -> wrap16s x = x.
 Proof. unfold int16, wrap16s. intros. rewrite Z.mod_small; lia. Qed.
+
+Lemma neg16_range x : int16 (neg16 x).
+Proof. apply wrap16s_range. Qed.
 
 Lemma neg16_involutive x : int16 x -> neg16 (neg16 x) = x.
 Proof.
@@ -19,3 +25,187 @@ Proof.
   rewrite (wrap16s_id (- x)) by (unfold int16; lia).
   rewrite Z.opp_involutive. apply wrap16s_id. exact H.
 Qed.
+
+Lemma neg16_plain x : -32767 <= x <= 32767 -> neg16 x = - x.
+Proof. intros. unfold neg16. apply wrap16s_id. unfold int16. lia. Qed.
+
+Lemma neg16_min : neg16 (-32768) = -32768.
+Proof. reflexivity. Qed.
+
+Lemma nth_int16 b k : Forall int16 b -> int16 (nth k b 0).
+Proof.
+  intros H. destruct (Nat.lt_ge_cases k (length b)) as [Hk|Hk].
+  - rewrite Forall_forall in H. apply H. apply nth_In. exact Hk.
+  - rewrite nth_overflow by exact Hk. unfold int16. lia.
+Qed.
+
+(* ------------------------------------------------------------------- upd *)
+Lemma length_upd {A} (l : list A) i v : length (upd l i v) = length l.
+Proof. revert i. induction l as [|a l IH]; intros [|i]; cbn; auto. Qed.
+
+Lemma nth_upd {A} (l : list A) i v k d :
+  nth k (upd l i v) d = if (Nat.eqb k i && Nat.ltb i (length l))%bool then v else nth k l d.
+Proof.
+  revert i k. induction l as [|a l IH]; intros i k.
+  - cbn. rewrite andb_false_r. reflexivity.
+  - destruct i as [|i]; destruct k as [|k]; cbn; try reflexivity.
+    rewrite IH. reflexivity.
+Qed.
+
+Lemma nth_map_seq {A} (f : nat -> A) s n k d : (k < n)%nat -> nth k (map f (seq s n)) d = f (s + k)%nat.
+Proof.
+  intros H. rewrite (nth_indep _ d (f 0%nat)) by (rewrite map_length, seq_length; exact H).
+  rewrite map_nth. rewrite seq_nth by exact H. reflexivity.
+Qed.
+
+Lemma map_nth_seq_id {A} (l : list A) d : map (fun k => nth k l d) (seq 0 (length l)) = l.
+Proof.
+  induction l as [|a l IH]; [reflexivity|].
+  cbn [length]. rewrite <- cons_seq, <- seq_shift, map_cons, map_map. cbn [nth]. f_equal. exact IH.
+Qed.
+
+(* ------------------------------------------------------- write-list runs *)
+Definition last_write (ws : list wr) (k : nat) : option wr := find (fun w => Nat.eqb (w_dst w) k) (rev ws).
+
+Lemma fold_writes_nth src ws d0 k :
+  length d0 = 64%nat -> Forall (fun w => (w_dst w < 64)%nat) ws ->
+  nth k (fold_left (fun d w => upd d (w_dst w) (wval src w)) ws d0) 0 =
+  match last_write ws k with Some w => wval src w | None => nth k d0 0 end
+  /\ length (fold_left (fun d w => upd d (w_dst w) (wval src w)) ws d0) = 64%nat.
+Proof.
+  intros Hl. revert k. induction ws as [|w ws IH] using rev_ind; intros k Hf.
+  - cbn. auto.
+  - apply Forall_app in Hf. destruct Hf as [Hf Hw]. inversion Hw as [|? ? Hw1 _]; subst.
+    rewrite fold_left_app. cbn [fold_left].
+    unfold last_write. rewrite rev_app_distr. cbn [rev app find].
+    destruct (IH k Hf) as [IHn IHl].
+    split; [|rewrite length_upd; exact IHl].
+    rewrite nth_upd, IHl.
+    assert (Hlt : Nat.ltb (w_dst w) 64 = true) by (apply Nat.ltb_lt; exact Hw1).
+    rewrite Hlt, andb_true_r. rewrite (Nat.eqb_sym k).
+    destruct (Nat.eqb (w_dst w) k); [reflexivity|]. exact IHn.
+Qed.
+
+Definition ws_ok (ws : list wr) (g : d4) : bool :=
+  forallb (fun w => Nat.ltb (w_dst w) 64) ws &&
+  forallb (fun k => match last_write ws k with
+                    | Some w => Nat.eqb (w_src w) (d4_perm g k) && Bool.eqb (w_neg w) (d4_sgn g k)
+                    | None => false end) (seq 0 64).
+
+Lemma act_length g b : length (act g b) = 64%nat.
+Proof. unfold act. rewrite map_length, seq_length. reflexivity. Qed.
+
+Lemma act_nth g b k : (k < 64)%nat ->
+  nth k (act g b) 0 = (let v := nth (d4_perm g k) b 0 in if d4_sgn g k then neg16 v else v).
+Proof. intros H. unfold act. rewrite nth_map_seq by exact H. reflexivity. Qed.
+
+Lemma ws_ok_sound ws g : ws_ok ws g = true -> forall b, exec_writes ws b = act g b.
+Proof.
+  unfold ws_ok. intros H b. apply andb_true_iff in H. destruct H as [H1 H2].
+  assert (Hf : Forall (fun w => (w_dst w < 64)%nat) ws).
+  { rewrite Forall_forall. rewrite forallb_forall in H1. intros w Hw. apply Nat.ltb_lt. auto. }
+  unfold exec_writes.
+  apply (nth_ext _ _ 0 0).
+  - rewrite act_length. apply (fold_writes_nth b ws (repeat 0 64%nat) 0%nat); [apply repeat_length|exact Hf].
+  - intros k Hk.
+    destruct (fold_writes_nth b ws (repeat 0 64%nat) k (repeat_length _ _) Hf) as [Hn Hl].
+    rewrite Hl in Hk. rewrite Hn, act_nth by exact Hk.
+    rewrite forallb_forall in H2. specialize (H2 k). rewrite in_seq in H2. specialize (H2 ltac:(lia)).
+    destruct (last_write ws k) as [w|]; [|discriminate].
+    apply andb_true_iff in H2. destruct H2 as [Hs Hg].
+    apply Nat.eqb_eq in Hs. apply eqb_prop in Hg.
+    unfold wval. rewrite Hs, Hg. reflexivity.
+Qed.
+
+(* the seven in-block loop bodies of transupp.c are the group elements *)
+Lemma blk_fliph_spec b : blk_fliph b = act D_fh b.
+Proof. apply ws_ok_sound. vm_compute. reflexivity. Qed.
+Lemma blk_flipv_spec b : blk_flipv b = act D_fv b.
+Proof. apply ws_ok_sound. vm_compute. reflexivity. Qed.
+Lemma blk_transpose_spec b : blk_transpose b = act D_tr b.
+Proof. apply ws_ok_sound. vm_compute. reflexivity. Qed.
+Lemma blk_rot90_spec b : blk_rot90 b = act D_r90 b.
+Proof. apply ws_ok_sound. vm_compute. reflexivity. Qed.
+Lemma blk_rot270_spec b : blk_rot270 b = act D_r270 b.
+Proof. apply ws_ok_sound. vm_compute. reflexivity. Qed.
+Lemma blk_rot180_spec b : blk_rot180 b = act D_r180 b.
+Proof. apply ws_ok_sound. vm_compute. reflexivity. Qed.
+Lemma blk_transverse_spec b : blk_transverse b = act D_tv b.
+Proof. apply ws_ok_sound. vm_compute. reflexivity. Qed.
+
+(* ------------------------------------------------------------ group laws *)
+Lemma d4_perm_lt g k : (k < 64)%nat -> (d4_perm g k < 64)%nat.
+Proof.
+  intros H. destruct g; cbn [d4_perm]; try exact H; unfold tr_idx;
+    (pose proof (Nat.mod_upper_bound k 8 ltac:(lia));
+     assert (k / 8 < 8)%nat by (apply Nat.div_lt_upper_bound; lia); lia).
+Qed.
+
+Lemma act_wf g b : Forall int16 b -> wf_blk (act g b).
+Proof.
+  intros H. split; [apply act_length|].
+  unfold act. rewrite Forall_forall. intros v Hv. apply in_map_iff in Hv.
+  destruct Hv as [k [<- _]]. cbv zeta. destruct (d4_sgn g k); [apply neg16_range|apply nth_int16; exact H].
+Qed.
+
+Lemma same_action_sound e g h : same_action e g h = true ->
+  forall b, Forall int16 b -> act g (act h b) = act e b.
+Proof.
+  unfold same_action. intros H b Hb. rewrite forallb_forall in H.
+  unfold act at 1 3. apply map_ext_in. intros k Hk. pose proof Hk as Hk'. apply in_seq in Hk'.
+  specialize (H k Hk). apply andb_true_iff in H. destruct H as [Hp Hs].
+  apply Nat.eqb_eq in Hp. apply eqb_prop in Hs. cbv zeta.
+  rewrite act_nth by (apply d4_perm_lt; lia). cbv zeta.
+  rewrite Hp, Hs.
+  pose proof (nth_int16 b (d4_perm h (d4_perm g k)) Hb) as Hr.
+  destruct (d4_sgn g k), (d4_sgn h (d4_perm g k)); cbn [xorb]; try reflexivity.
+  apply neg16_involutive. exact Hr.
+Qed.
+
+Lemma d4_mul_ok g h : same_action (d4_mul g h) g h = true.
+Proof. destruct g, h; vm_compute; reflexivity. Qed.
+
+Theorem act_act g h b : Forall int16 b -> act g (act h b) = act (d4_mul g h) b.
+Proof. intros. apply same_action_sound; [apply d4_mul_ok|assumption]. Qed.
+
+Lemma act_id b : length b = 64%nat -> act D_id b = b.
+Proof.
+  intros H. unfold act. cbn [d4_perm d4_sgn]. cbv zeta.
+  change 64%nat with (length b) at 1 || rewrite <- H. apply map_nth_seq_id.
+Qed.
+
+Lemma d4_apply_act g b : length b = 64%nat -> d4_apply g b = act g b.
+Proof. intros H. destruct g; try reflexivity. cbn. symmetry. apply act_id. exact H. Qed.
+
+Lemma d4_apply_wf g b : wf_blk b -> wf_blk (d4_apply g b).
+Proof. intros [H1 H2]. rewrite d4_apply_act by exact H1. apply act_wf. exact H2. Qed.
+
+Theorem d4_apply_apply g h b : wf_blk b -> d4_apply g (d4_apply h b) = d4_apply (d4_mul g h) b.
+Proof.
+  intros [H1 H2]. rewrite (d4_apply_act h b H1).
+  rewrite (d4_apply_act g) by apply act_length.
+  rewrite (d4_apply_act _ b H1). apply act_act. exact H2.
+Qed.
+
+(* the group table: identity, inverses, associativity, generators *)
+Lemma d4_mul_table :
+  map (fun g => map (d4_mul g) all_d4) all_d4 =
+  [ [D_id;   D_fh;   D_fv;   D_r180; D_tr;   D_r90;  D_r270; D_tv];
+    [D_fh;   D_id;   D_r180; D_fv;   D_r90;  D_tr;   D_tv;   D_r270];
+    [D_fv;   D_r180; D_id;   D_fh;   D_r270; D_tv;   D_tr;   D_r90];
+    [D_r180; D_fv;   D_fh;   D_id;   D_tv;   D_r270; D_r90;  D_tr];
+    [D_tr;   D_r270; D_r90;  D_tv;   D_id;   D_fv;   D_fh;   D_r180];
+    [D_r90;  D_tv;   D_tr;   D_r270; D_fh;   D_r180; D_id;   D_fv];
+    [D_r270; D_tr;   D_tv;   D_r90;  D_fv;   D_id;   D_r180; D_fh];
+    [D_tv;   D_r90;  D_r270; D_tr;   D_r180; D_fh;   D_fv;   D_id] ].
+Proof. vm_compute. reflexivity. Qed.
+
+Lemma d4_mul_assoc a b c : d4_mul a (d4_mul b c) = d4_mul (d4_mul a b) c.
+Proof. destruct a, b, c; vm_compute; reflexivity. Qed.
+Lemma d4_mul_id_l g : d4_mul D_id g = g.
+Proof. destruct g; vm_compute; reflexivity. Qed.
+Lemma d4_mul_id_r g : d4_mul g D_id = g.
+Proof. destruct g; vm_compute; reflexivity. Qed.
+Definition d4_inv (g : d4) : d4 := match g with D_r90 => D_r270 | D_r270 => D_r90 | _ => g end.
+Lemma d4_mul_inv g : d4_mul g (d4_inv g) = D_id /\ d4_mul (d4_inv g) g = D_id.
+Proof. destruct g; vm_compute; split; reflexivity. Qed.
